@@ -33,8 +33,9 @@ ASSUMPTIONS = [
     "naming callbacks return one name per edge of their motif (a single name for the bare edge): the property's "
     "reading of 'the matching position of the naming callback'"]
 TRUSTED = ["build callbacks observed through a logging wrapper; names mapped to integer codes by the harness",
-           "network variant: rows are read back from the graph in callback order when no vertex pair repeats "
-           "(otherwise only the correspondence applies; networkx keeps one attribute set per pair, see C04)"]
+           "network variant: rows are read back from the graph in callback order; a vertex pair the callbacks produced "
+           "more than once is left out of the callback results and of the rows alike (networkx keeps one attribute set "
+           "per pair, see C04), every pair produced exactly once is judged"]
 TECHNIQUE = ("Coq proof (induction over the emitted motif list; block decomposition of the rows) + "
              "model/implementation correspondence under scripted shuffles + verified checker on the observed columns")
 LEVEL_TEXT = (
